@@ -2,6 +2,7 @@
 
 mod alloc;
 mod client;
+mod corpus;
 mod engine;
 mod gen;
 mod peers;
@@ -40,6 +41,14 @@ fn main() {
         std::process::exit(2);
     };
     let rest = &args[1..];
+    if id == "gen-corpus" {
+        // seed corpus for the libFuzzer targets: 8 configuration bytes + a wire image built by the reference builders
+        let dir = std::path::PathBuf::from(rest.first().cloned().unwrap_or_else(|| "corpus".into()));
+        std::fs::create_dir_all(&dir).unwrap();
+        let n = corpus::write(&dir);
+        println!("wrote {n} seed inputs to {}", dir.display());
+        return;
+    }
     let code = match id.as_str() {
         "C01" => main_for::<props::c01::C01>(rest),
         "C02" => main_for::<props::c02::C02>(rest),
